@@ -172,6 +172,8 @@ impl PhysicalOperator for HashAggregateExec {
         for part in 0..input_partitions {
             let input = self.input.clone();
             handles.push(tokio::spawn(async move {
+                #[cfg(qe_verif)]
+                crate::verif::sched::sched_point("hash_agg.partition_task").await;
                 let input_stream = input.execute(part).await?;
                 let batches: Vec<RecordBatch> = input_stream.try_collect().await?;
                 Ok::<_, QueryError>(batches)
